@@ -286,13 +286,18 @@ theorem handleModeLine_fs {cfg : Cfg} {m m' : M} {l : L} {b : Bool} (hpm : Minor
     · split at e <;> (cases e; exact FS.of_fv ((FV.refl m).of_tl rfl rfl) (Or.inr ⟨rfl, rfl⟩))
     · cases e; exact FS.pass hs
 
-theorem handleAdditionalCases_fs {cfg : Cfg} {m m' : M} {l : L} {b : Bool} (hpm : Minor p) {to : State}
-    (hto : Quiet m.st to) (e : handleAdditionalCases cfg m l to = .ok (b, m')) : FS p m m' b := by
+/-- `handle_additional_cases` run on a machine `m` that came from `m0` without touching the rows selected by `p` -/
+theorem handleAdditionalCases_fs_from {cfg : Cfg} {m0 m m' : M} {l : L} {b : Bool} (hpm : Minor p) {to : State}
+    (c0 : FV p m0 m) (hto : Quiet m0.st to) (e : handleAdditionalCases cfg m l to = .ok (b, m')) : FS p m0 m' b := by
   unfold handleAdditionalCases at e
-  have c : FV p m { flushMP m with st := to } := (FV.refl m).flushMP.of_tl rfl rfl
+  have c : FV p m0 { flushMP m with st := to } := c0.flushMP.of_tl rfl rfl
   split at e
   · cases e; exact FS.of_fv (c.emit.writeGeneric hpm cfg _ _) (by simpa using hto)
   · cases e; exact FS.of_fv c hto
+
+theorem handleAdditionalCases_fs {cfg : Cfg} {m m' : M} {l : L} {b : Bool} (hpm : Minor p) {to : State}
+    (hto : Quiet m.st to) (e : handleAdditionalCases cfg m l to = .ok (b, m')) : FS p m m' b :=
+  handleAdditionalCases_fs_from hpm (FV.refl m) hto e
 
 theorem handleMisc_fs {cfg : Cfg} {m m' : M} {l : L} {b : Bool} (hpm : Minor p) (hs : isMergeConflict m.st = false)
     (e : handleMisc cfg m l = .ok (b, m')) : FS p m m' b := by
@@ -317,7 +322,7 @@ theorem handleSubmoduleLog_fs {cfg : Cfg} {m m' : M} {l : L} {b : Bool} (hpm : M
   unfold handleSubmoduleLog at e
   split at e
   · cases e; exact FS.pass hs
-  · exact handleAdditionalCases_fs hpm (Or.inr ⟨rfl, rfl⟩) e
+  · exact handleAdditionalCases_fs_from hpm ((FV.refl m).flushMP.pendingDiffName hpm cfg) (Or.inr ⟨rfl, rfl⟩) e
 
 theorem handleSubmoduleShort_fs {cfg : Cfg} {m m' : M} {l : L} {b : Bool} (hpm : Minor p) (hs : isMergeConflict m.st = false)
     (e : handleSubmoduleShort cfg m l = .ok (b, m')) : FS p m m' b := by
